@@ -5,6 +5,7 @@ import Driver.Cascade
 import Driver.Links
 import Driver.Build
 import Driver.Structure
+import Driver.Clip
 open Driver
 
 def step (line : String) : String :=
@@ -25,6 +26,7 @@ def step (line : String) : String :=
   | "rxry" :: args => handleStructure "rxry" args
   | "rxryobs" :: args => handleStructure "rxryobs" args
   | "switch" :: args => handleStructure "switch" args
+  | "clipf" :: args => handleClip args
   | "build" :: args => handleBuild args
   | "casc" :: args => handleCascade "casc" args
   | "expand" :: args => handleCascade "expand" args
